@@ -51,6 +51,8 @@ def run(F, rep, tier):
     c13.grammar_rule(F, rep, r3, g3_scope.ScopeAnalysis(F, callgraph.CallGraph(F)))
     c09.collection_equality_rule(F, rep)
     c09.context_key_rule(F, rep)
+    r5 = rep.rule("R09.5", "between / in-range / unary tests: the same ordered kinds, closed ends use the non-strict and open ends the strict primitive")
+    c09.r5_intervals(F, rep, r5, c09.variants(F))
     c10.key_coverage_rule(F, rep)
 
 
@@ -79,7 +81,10 @@ def lookup_order_rule(F, rep):
             if not rets:
                 continue
             n_scan += 1
-            if set(names) & REVERSED:
+            vt = value_test_in(F, lp["arms"])
+            if vt:
+                rep.violation(rid, key + ":value", "%s skips a context whose entry exists but %s: a binding to such a value does not shadow an outer binding of the same name" % (name, vt), where)
+            elif set(names) & REVERSED:
                 rep.ok(rid, key, "first-hit loop over the stack, reversed")
             else:
                 rep.violation(rid, key, "%s returns the first hit of a scan over the context stack in stack order: an outer binding shadows an inner one" % name, where)
@@ -89,13 +94,32 @@ def lookup_order_rule(F, rep):
             if not (root.get("k") == "Field" and root.get("name") == "contexts"):
                 continue
             n_scan += 1
-            if set(names) & REVERSED:
+            vt = value_test_in(F, mc.get("args", []))
+            if vt:
+                rep.violation(rid, key + ":value", "%s skips a context whose entry exists but %s: a binding to such a value does not shadow an outer binding of the same name" % (name, vt), where)
+            elif set(names) & REVERSED:
                 rep.ok(rid, key, "first-hit chain over the stack, reversed")
             elif mc.get("method") == "any":
                 rep.ok(rid, key, "existence test (order irrelevant)")
             else:
                 rep.violation(rid, key, "%s answers with `%s` over the context stack in stack order: an outer binding shadows an inner one" % (name, mc.get("method")), where)
     rep.floor(rid, "first-hit scans over the scope stack", n_scan, 2)
+
+
+def value_test_in(F, tree):
+    """does the scan look at the *value* it found (a pattern on a Value variant, is_null ..) before answering ?  the innermost context that has the entry answers whatever the value"""
+    regions = [tree] + [F.hir[c.get("name")]["body"] for c, _ in find_hir(tree, lambda x: x.get("k") == "Closure") if c.get("name") in F.hir]
+    for r in regions:
+        for x, _ in find_hir(r, lambda x: x.get("k") in ("Match", "If", "Let")):
+            pats = [a["p"] for a in x.get("arms", [])] if x.get("k") == "Match" else [strip(x["c"]).get("p")] if x.get("k") == "If" and strip(x.get("c", {})).get("k") == "Let" else [x.get("p")] if x.get("k") == "Let" else []
+            for p in pats:
+                vs = [q for q in c10.pat_paths(p) if q.startswith("dmntk_feel::values::Value::")] if p else []
+                if vs:
+                    return "is a %s" % vs[0].split("::")[-1]
+        for x, _ in find_hir(r, lambda x: x.get("k") == "MethodCall" and x.get("method") in ("is_null", "is_some_and", "filter") and x.get("method") != "filter"):
+            if x.get("method") == "is_null":
+                return "is null"
+    return None
 
 
 # ====================================================================================================== R01.2
